@@ -193,6 +193,14 @@ class Run(object):
                 self.A.next = ("none", "imm")
                 word, reason = ("FAILED", "END") if a == "StreamFailed" else ("CLOSED", "DONE")
                 self.sim.event("650 STREAM %d %s 0 www.example.com:80 REASON=%s\r\n" % (s, word, reason))
+            elif a == "Progress":
+                s = e["s"]
+                self.cur_stream = s
+                self.A.next = ("none", "imm")
+                if e["k"] == "REMAP":
+                    self.sim.event("650 STREAM %d REMAP 0 93.184.216.34:80 SOURCE=CACHE\r\n" % s)
+                else:
+                    self.sim.event("650 STREAM %d CONTROLLER_WAIT 0 www.example.com:80\r\n" % s)
             elif a == "Answer":
                 s = e["s"]
                 self.cur_stream = s
